@@ -343,6 +343,11 @@ def gen_history(seed, tier, classes=None, weights=None, n_ops=(6, 16),
         ops.append(op)
         s.pre, s.data = newpre, other
         s.fitted = False
+        if r.random() < 0.35:
+          # a query between the swap and the refit: the estimator is still the
+          # one fitted with the old preprocessor_ and must stay so
+          ops.append(dict(op="query", h=s.hid, method=r.choice(methods(s)),
+                          probe=dict(probe(s), data=other, via=r.choice(["indices", "formed"]))))
         if r.random() < 0.7:
           fit_op(s, other)
         else:
